@@ -32,7 +32,8 @@ EXPLANATION = (
     'literal check of a default is skipped only for null on a nullable field, and ValueError is '
     'converted. Decides these structural parts; decoding of concrete examples is not decided.'
     ' R7 (imported from C08-R6): reading an unset defaulted field returns the default only if the attribute is not generated as nullable through an alias.'
-    ' RD (decision drift, stonelint.conddrift): the tests of the functions this property is anchored in (stonelint.ownership) are compared with reference/conditions.json; a relation, polarity or connective changed over the same operands, or an operand purely added or dropped, is a violation; re-spellings and new or removed tests are not claimed.')
+    ' RD (decision drift, stonelint.conddrift): the tests of the functions this property is anchored in (stonelint.ownership) are compared with reference/conditions.json; a relation, polarity or connective changed over the same operands, or an operand purely added or dropped, is a violation; re-spellings and new or removed tests are not claimed.'
+    " RE (expression drift, stonelint.exprdrift): the same functions' attribute names, variable reads, simple statements, calls and arithmetic/slice literals are compared with reference/expressions.json; a substituted attribute or variable, a dropped call or assignment, swapped arguments or a changed literal is a violation; any other edit is not claimed.")
 ASSUMPTIONS = [
     'the parser produces default literals of kinds bool, int, float, str, null and tag references '
     '(p_default_option: primitive | tag_ref)',
@@ -345,6 +346,8 @@ def run(pm, ctx):
     from ..conddrift import run_decisions
     from ..ownership import OWN
     run_decisions(pm, ctx, 'C10-RD', OWN['C10'])
+    from .. import exprdrift
+    exprdrift.run(pm, ctx, 'C10-RE', OWN['C10'])
 
 
 def emission_order(pm):
